@@ -250,7 +250,7 @@ structure Contributed where
   supply : Int
   reserves : List Int
   accepted : List Int
-  deriving Repr
+  deriving Repr, DecidableEq
 
 def oneContribute (s r c : Int) : R Contributed :=
   if c = 0 then .error .emptyBucket else
